@@ -247,6 +247,9 @@ C14_Step(c, c2, g, ln) ==
                         "C14.state_differs", <<"recv", c2.A[s.a].st, ln.post.state[s.a]>> >> >>, IF allUnhandled THEN 1 ELSE 0)
   ELSE IF Ends(ln, "lost") THEN
     FirstBad(g, << <<ln.post.state[s.a] = "IdleState", "C14.state_differs", <<"lost", ln.post.state[s.a]>> >> >>, 0)
+  ELSE IF s.op = "set" /\ "a" \in DOMAIN s /\ c.A[s.a].st \in {"idle", "none"} THEN
+    \* a setter is no operation of the table above: on an idle protocol it makes nothing (held back, inherited) take effect
+    FirstBad(g, << <<NoEffect(ln), "C14.effect_while_idle", <<s.what, ShortFx(ln)>> >> >>, 1)
   ELSE OKr(g)
 C14_End(c, g) == OKr(g)
 
@@ -359,7 +362,8 @@ C05_Step(c, c2, g, ln) ==
                                                           /\ ~IsBad(DecodeStrict(inb[j].raw, c.A[s.a].ver))}}
       mustFire == IF s.op # "recv" \/ Mid(ln) \/ IsContL(ln) \/ Nested(ln) THEN {} ELSE
                   {i \in 1..Len(g.P) : LET x == g.P[i] IN
-                      /\ x.d \in 1..Len(c.D) /\ c.D[x.d].st = "pending" /\ s.a = x.a /\ x.sent /\ ~x.unj /\ c.A[s.a].tp = "open"
+                      /\ x.d \in 1..Len(c.D) /\ c.D[x.d].st = "pending" /\ s.a = x.a /\ x.sent /\ c.A[s.a].tp = "open"
+                      /\ ~g2.P[i].unj          \* (no acknowledgement of the wrong type for it, in this chunk or before)
                       /\ ((x.qos = 1 /\ x.mid \in obl("PUBACK")) \/ (x.qos = 2 /\ x.rec /\ x.mid \in obl("PUBCOMP")))}
       qos0OK == (isPub /\ s.qos.v = 0) =>
                    LET d == c2.D[rets[1].d] IN d.st # "pending" /\ (d.st = "ok" => d.val = [ty |-> "none"] /\ rets[1].mid = -1)
@@ -910,7 +914,8 @@ C16_Step(c, c2, g, ln) ==
       k == c.A[a]
       leftHanging == {h \in 1..Len(c2.D) : IsReq(c2.D[h]) /\ c2.D[h].a = a /\ c2.D[h].st = "pending"}
   IN FirstBad([g EXCEPT ![a] = seen2],
-       << <<~(s.op \in {"recv", "fire"}) \/ ~Raised(ln), "C16.exception_escapes", <<s.op, IF Raised(ln) THEN Fx(ln, "raise")[1].exc ELSE "">> >>,
+       \* (also out of the loss handling itself: it is what settles the pending requests after an abort)
+       << <<~(s.op \in {"recv", "fire", "lost"}) \/ ~Raised(ln), "C16.exception_escapes", <<s.op, IF Raised(ln) THEN Fx(ln, "raise")[1].exc ELSE "">> >>,
           <<~isRecv \/ \A i \in 1..Len(closes) : closes[i].how = "abort", "C16.reaction_other_than_abort", <<>> >>,
           <<~isRecv \/ \A i \in 1..Len(cbs) : CbArgs(cbs[i]) \in seen2, "C16.unjustified_delivery", <<IF cbs # <<>> THEN cbs[1].topic ELSE <<>> >> >>,
           <<~isRecv \/ \A i \in 1..Len(oks) : okJust(oks[i]), "C16.unjustified_success", <<IF oks # <<>> THEN c.D[oks[1].d].op ELSE "">> >>,
